@@ -92,6 +92,34 @@ def is_set(n):
     return isinstance(n, (set, CommentedSet))
 
 
+def own_items(n):
+    """(key, value) pairs a mapping holds itself, without those it inherits through `<<` merge keys."""
+    if getattr(n, "merge", None) and hasattr(n, "non_merged_items"):
+        return list(n.non_merged_items())
+    return list(n.items())
+
+
+def merge_refs(n):
+    """Anchor names of the mappings merged into this one with `<<`, in order."""
+    return [anchor_of(m) for (_i, m) in (getattr(n, "merge", None) or [])]
+
+
+def to_block(n, _seen=None):
+    """Switch every container of a loaded document to block style (ruamel's flow emitter cannot re-read
+    some of its own output once an anchored mapping moves inside a flow sequence)."""
+    _seen = _seen if _seen is not None else set()
+    if id(n) in _seen or not isinstance(n, (dict, list)) or is_set(n):
+        return n
+    _seen.add(id(n))
+    if hasattr(n, "fa"):
+        n.fa.set_block_style()
+    for c in (n.values() if isinstance(n, dict) else n):
+        to_block(c, _seen)
+    for (_i, m) in (getattr(n, "merge", None) or []):
+        to_block(m, _seen)
+    return n
+
+
 def is_container(n):
     return isinstance(n, (dict, list, set, CommentedSet))
 
